@@ -563,3 +563,12 @@ func init() {
 		mutant{Name: "iota-reset-before-the-early-compilation-only", Prop: "C03", File: "interp/cfg.go", Old: "\t\t\t// The specifications are numbered from zero, whatever an earlier declaration\n\t\t\t// (or the early parse above) which failed has left.\n\t\t\tsc.iota = 0\n", New: "", Rule: "R03.24", Key: "Interpreter.cfg/case:constDecl/specifications-numbered-from-zero"},
 	)
 }
+
+func init() {
+	addMutants(
+		// D131, D132 reverted
+		mutant{Name: "blank-identifiers-share-one-location", Prop: "C01", File: "interp/cfg.go", Old: "\t\t\t\t\tif dest.ident == \"_\" && !sc.global {\n\t\t\t\t\t\t// Each assignment to the blank identifier has a location of its own: the\n\t\t\t\t\t\t// values discarded in one scope need not be of the same type.\n\t\t\t\t\t\tsym = nil\n\t\t\t\t\t} else if sc.global || sc.isRedeclared(dest) {\n", New: "\t\t\t\t\tif sc.global || sc.isRedeclared(dest) {\n", Rule: "R01.41", Key: "cfg/case:assignStmt/symbol-reuse#1/not-for-the-blank-identifier"},
+		mutant{Name: "virtual-environment-read-without-the-lock", Prop: "C08", File: "interp/use.go", Old: "\t\t\tgetenv := func(key string) string {\n\t\t\t\tinterp.envMu.RLock()\n\t\t\t\tdefer interp.envMu.RUnlock()\n\t\t\t\treturn interp.env[key]\n\t\t\t}\n", New: "\t\t\tgetenv := func(key string) string { return interp.env[key] }\n", Rule: "R08.3", Key: "guarded/fixStdlib/opt.env/read"},
+		mutant{Name: "virtual-environment-written-under-the-read-lock", Prop: "C08", File: "interp/use.go", Old: "\t\t\t\tinterp.envMu.Lock()\n\t\t\t\tdefer interp.envMu.Unlock()\n\t\t\t\tinterp.env[key] = value\n", New: "\t\t\t\tinterp.envMu.RLock()\n\t\t\t\tdefer interp.envMu.RUnlock()\n\t\t\t\tinterp.env[key] = value\n", Rule: "R08.3", Key: "guarded/fixStdlib/opt.env/write#2"},
+	)
+}
